@@ -53,12 +53,42 @@ def strategy(tier):
     )
 
 
+def exhaustive(tier):
+    yield ("32-byte keys: the proof used by a caller with only 100 frames of stack left",
+           iter([{"headroom": 100, "default": d} for d in (b"", b"default")]))
+
+
+def _run_headroom(case, info):
+    from ..util import call_with_headroom
+
+    h, default = case["headroom"], case["default"]
+    ref = RefSMT(32, default)
+    tree = impl("construct", SparseMerkleTree, key_size=32, default=default)
+    K = bytes(range(32))
+    model = {K: b"mine"}
+    impl("set", tree.set, K, b"mine")
+    proof = impl("construct-proof", SparseMerkleProof, K, b"mine", impl("branch", tree.branch, K))
+    others = [bytes([K[0] ^ 0x80]) + K[1:], K[:16] + bytes([K[16] ^ 1]) + K[17:], K[:-1] + bytes([K[-1] ^ 1]), K]
+    for i, k in enumerate(others):
+        upd = impl("set", tree.set, k, b"v%d" % i)
+        model[k] = b"v%d" % i
+        impl("sufficient-update-accepted", call_with_headroom, h, lambda: proof.update(k, b"v%d" % i, upd))
+        root = impl("root_hash", call_with_headroom, h, lambda: proof.root_hash)
+        expect_eq("proof-root-in-sync", as_bytes("proof-root-in-sync", root, "proof.root_hash"), ref.root(model),
+                  "proof.root_hash read from a deep call stack")
+    info.label("low-stack-headroom")
+    info.nontrivial = True
+    return info
+
+
 def _state(proof):
     return (as_bytes("proof-value-in-sync", proof.value, "proof.value"), as_bytes_tuple("proof-branch-in-sync", proof.branch, "proof.branch"))
 
 
 def run_case(case):
     info = Info()
+    if "headroom" in case:
+        return _run_headroom(case, info)
     ks = case["key_size"]
     depth = ks * 8
     default = case["default"]
